@@ -39,6 +39,8 @@ func main() {
 		runC17(*seed, *count)
 	case "C11":
 		runC11(*seed, *count)
+	case "C02":
+		runC02burst()
 	case "C06":
 		runC06http()
 	case "C18":
